@@ -5,6 +5,7 @@ import (
 	"errors"
 	"fmt"
 	"math/rand"
+	"reflect"
 
 	"github.com/wkhere/bcl"
 
@@ -497,7 +498,7 @@ func init() {
 		Rule: "reference-model monitor on block-centred programs: toplevel and nested blocks (depth <= 4), repeated types and names, names needing escapes, fields re-assigned, " +
 			"fields named like children / variables / TYPE / NAME, duplicate child keys, runtime errors after k completed blocks; deep comparison of []Block " +
 			"(count, order, Type, Name, exact key set, values with Go dynamic type, children under type / type.name), of output and of the error. " +
-			"distinct = hash of source; non-trivial = specified verdict and >= 1 block opened Also: a third of the programs contain bind statements (the result list must not be disturbed); chains of blocks nested 1..16 deep; block names and strings spelled like numbers, like TYPE / NAME, ending in a dot; long identifiers.",
+			"distinct = hash of source; non-trivial = specified verdict and >= 1 block opened Also: a third of the programs contain bind statements (the result list must not be disturbed); chains of blocks nested 1..16 deep; block names and strings spelled like numbers, like TYPE / NAME, ending in a dot; long identifiers. When the program yields a binding the harness goes on to Bind it (into a struct type derived from the bound block and into one that does not fit) and then compares the returned blocks and binding with the reference once more.",
 		Assumptions:   []string{"DESIGN §5.4 block rules are the language definition"},
 		MinNontrivial: 1000,
 		Run: func(c *core.Ctx) {
@@ -522,6 +523,46 @@ func init() {
 						return
 					}
 					c.Count("toplevel_blocks_returned", int64(len(cs.Oc.Blocks)))
+					if r.Binding != nil && r.Err == nil && cs.Oc.Unspecified == "" && r.Panic == "" {
+						// the caller goes on to Bind the returned binding (into a type derived from the bound block,
+						// and into one that does not fit): the result list is the caller's and must not change under it
+						rr := c.Rand(i ^ 0x51ed)
+						var first bcl.Block
+						slice := false
+						switch b := r.Binding.(type) {
+						case bcl.StructBinding:
+							first = b.Value
+						case bcl.SliceBinding:
+							slice = true
+							if len(b.Value) > 0 {
+								first = b.Value[0]
+							}
+						}
+						for _, mutate := range []bool{false, true} {
+							t := c15TargetType(rr, first, mutate)
+							var target any
+							if slice {
+								target = reflect.New(reflect.SliceOf(t)).Interface()
+							} else {
+								target = reflect.New(t).Interface()
+							}
+							pan, stack := protect(func() { bcl.Bind(target, r.Binding) })
+							c.Eval(1)
+							if pan != "" {
+								c.Violation(panicSig(pan, stack), "Bind of the returned binding panicked: "+pan, detailOf(cs, r))
+								return
+							}
+							if d := blocksEq(cs.Oc.Blocks, r.Blocks); d != "" {
+								c.Violation("blocks-changed-by-bind", "after Bind of the returned binding the returned blocks are no longer what the program defined: "+d, detailOf(cs, r))
+								return
+							}
+							if d := bindingEq(cs.Oc.Binding, r.Binding); d != "" {
+								c.Violation("blocks-changed-by-bind", "after Bind the returned binding is no longer what the program selected: "+d, detailOf(cs, r))
+								return
+							}
+						}
+						c.Count("results_re_examined_after_bind", 1)
+					}
 					if cs.Oc.Err != nil && len(cs.Oc.Blocks) > 0 {
 						c.Count("runs_returning_blocks_together_with_error", 1)
 					}
